@@ -147,20 +147,159 @@ Proof.
       rewrite !Z.eqb_refl, Erf, eqb_reflx. cbn [andb negb].
       destruct (window_in_range e (sl_rcnt r)); [|reflexivity]. rewrite andb_false_r. reflexivity.
     + destruct (cannot_create s).
-      * intros ->. rewrite has_newsc_du.
+      * cbn [snd]. intros ->. rewrite has_newsc_du.
         cbn [fst snd sl_de sl_last sl_rcnt sl_refreshing sl_conn sl_set_de du_outs count_newsc filter length news flat_map app].
         rewrite !Z.eqb_refl, Erf, N.eqb_refl. cbn [andb negb Nat.eqb].
         rewrite (list_eqb_refl nnat_eqb) by apply nnat_eqb_refl.
         destruct (window_in_range e (sl_rcnt r)); [|reflexivity].
         rewrite <- Htr by reflexivity. reflexivity.
-      * intros Ha. rewrite has_newsc_du.
+      * intros Ha. cbn [snd] in Ha. rewrite has_newsc_du.
         cbn [fst snd sl_de sl_last sl_rcnt sl_refreshing sl_conn sl_set_de sl_set_refreshing
              du_outs count_newsc filter length news flat_map app].
-        rewrite !Z.eqb_refl, Erf, N.eqb_refl, Ha, Nat.eqb_refl. cbn [andb negb Nat.eqb].
+        rewrite !Z.eqb_refl, N.eqb_refl, Ha, !Nat.eqb_refl. cbn [andb negb].
         destruct (window_in_range e (sl_rcnt r)); [|reflexivity].
         rewrite <- Htr by reflexivity. reflexivity.
   - intros _. rewrite has_newsc_du. cbn [fst snd sl_de sl_last sl_rcnt sl_refreshing sl_set_de].
     rewrite !Z.eqb_refl, eqb_reflx. cbn [andb].
     destruct (window_in_range e (sl_rcnt r)); [|reflexivity].
     rewrite <- Htr by reflexivity. reflexivity.
+Qed.
+
+Lemma c07_done_holds raw s ms j oc rk order s' outs rt ub :
+  Inv s -> InvU s -> Sim s ms -> de_ok s -> rt <> RBadOp ->
+  full_step raw s (OpDone j oc rk) order = (s', outs, rt, ub) ->
+  match nth_error (ms_picks ms) j with
+  | Some p =>
+      match o_slot (observe s) (mp_slot p), o_slot (observe s') (mp_slot p) with
+      | Some x, Some y =>
+          c07_done_check (eff (raw_in_force raw ms (OpDone j oc rk))) (o_undet (observe s)) (o_now (observe s))
+                         (o_refr (observe s)) (o_refr (observe s')) p oc outs x y
+      | _, _ => true
+      end
+  | None => true
+  end = true.
+Proof.
+  intros HI HU HS Hde Hrt. rewrite full_step_eq. cbn [step].
+  destruct (Done s j oc rk) as [[s1 o1] r1] eqn:Ed.
+  destruct (resolve_blocked s1) as [s2 ub2] eqn:Er. intros E; inv E.
+  destruct (Done_spec _ _ _ _ _ _ _ HI Ed Hrt) as (p & r & Hj & Hst & Hr & H1 & H2 & H3). cbv zeta in H1, H2, H3.
+  destruct HS as (_ & HSc & _ & _ & HSp & _).
+  unfold SimP in HSp. rewrite HSp, (map_nth_error mpick_of _ _ Hj).
+  change (mp_slot (mpick_of p)) with (pk_slot p).
+  change (o_slot (observe s) (pk_slot p)) with (get_slot s (pk_slot p)). rewrite Hr.
+  change (o_slot (observe s') (pk_slot p)) with (get_slot s' (pk_slot p)).
+  destruct (get_slot s' (pk_slot p)) as [y|] eqn:Hy; [|reflexivity].
+  destruct (Done_Inv _ _ _ _ _ _ _ HI Ed) as [HI1 _].
+  destruct (resolve_blocked_spec _ _ _ HI1 Er) as [HI' [Hm _]].
+  set (s0 := done_s1 s j p) in *. set (r0 := sl_set_streams r (wrap32s (sl_streams r - 1))) in *.
+  set (res := du_result s0 p oc r0) in *.
+  (* the slot after is the model's result slot, up to the stream count *)
+  assert (Hyv : rview y = rview (fst res)).
+  { pose proof (rviews_mask_sp _ _ Hm) as Hrv. rewrite H1 in Hrv.
+    pose proof (map_nth_error rview _ _ Hy) as Hn. rewrite Hrv, nth_error_upd_nth_eq in Hn.
+    rewrite (map_nth_error rview _ _ Hr) in Hn. cbn [option_map] in Hn. congruence. }
+  assert (Hxv : rview r = rview r0) by reflexivity.
+  rewrite (done_check_ext _ _ _ _ _ _ _ _ r0 (fst res) r y Hxv Hyv).
+  (* the configuration *)
+  destruct (b_cfg s) as [c|] eqn:Ec.
+  2:{ exfalso. eapply InvG_cfg_picks; [apply HI|eapply nth_error_nonnil, Hj|exact Ec]. }
+  pose proof (Sim_cfg_in_force raw s ms (OpDone j oc rk) c HSc Ec) as Hc.
+  assert (Hrf : b_refr s' = du_refr s0 (pk_slot p) (snd res)).
+  { pose proof (f_equal b_refr Hm) as H. cbn in H. rewrite H. exact H3. }
+  change (o_undet (observe s)) with (b_undet s0). change (o_now (observe s)) with (b_now s0).
+  change (o_refr (observe s)) with (asort (b_refr s0)).
+  change (o_refr (observe s')) with (asort (b_refr s')). rewrite Hrf, H2.
+  pose proof (de_le_slot _ _ _ _ Hde Hr) as Hdr.
+  apply done_check_holds.
+  - change (cfg_ucalls s0) with (cfg_ucalls s). unfold cfg_ucalls, eff. rewrite Ec, Hc. reflexivity.
+  - change (cfg_ums s0) with (cfg_ums s). unfold cfg_ums, eff. rewrite Ec, Hc. reflexivity.
+  - exact HU.
+  - change (sl_de r0) with (sl_de r). lia.
+  - change (sl_de r0) with (sl_de r). unfold W32 in *. lia.
+  - fold res. destruct (snd res); try reflexivity. cbn [du_refr].
+    rewrite aget_asort; [apply aget_aset_eq|].
+    apply NoDup_akeys_aset. change (b_refr s0) with (b_refr s). apply (nd_refr (proj1 HI)).
+Qed.
+
+(* ================================================================ clause 3: the swap *)
+(* sorting by key commutes with any map that keeps the keys; in particular with rekey *)
+Lemma ains_map {V W} (f : N * V -> N * W) :
+  (forall kv, fst (f kv) = fst kv) -> forall x l, ains (f x) (map f l) = map f (ains x l).
+Proof.
+  intros Hf x l. induction l as [|y r IH]; cbn [map ains]; [reflexivity|].
+  rewrite !Hf. destruct (N.leb (fst x) (fst y)); cbn [map]; [reflexivity|]. rewrite IH. reflexivity.
+Qed.
+
+Lemma asort_map {V W} (f : N * V -> N * W) :
+  (forall kv, fst (f kv) = fst kv) -> forall m, asort (map f m) = map f (asort m).
+Proof.
+  intros Hf m. unfold asort. induction m as [|x r IH]; cbn [map fold_right]; [reflexivity|].
+  rewrite IH. apply ains_map, Hf.
+Qed.
+
+Lemma asort_rekey m a b : asort (rekey m a b) = rekey (asort m) a b.
+Proof. unfold rekey. apply asort_map. intros [k v]; cbn. destruct (N.eqb v a); reflexivity. Qed.
+
+(* a swap event in which no call waiting on the swapped channel returned *)
+Definition swap_quiet_ev (ev : event) : Prop :=
+  match ev_op ev with
+  | OpConnState sc Ready => removes (ev_out ev) <> [] -> forall j, ~ In (j, sc) (ev_ub ev)
+  | _ => True
+  end.
+
+Lemma c07_swap_holds raw s sc order s' outs rt ub i :
+  Inv s -> full_step raw s (OpConnState sc Ready) order = (s', outs, rt, ub) ->
+  aget (o_refr (observe s)) sc = Some i ->
+  swap_quiet_ev (mkEvent (OpConnState sc Ready) outs rt ub (Some (observe s'))) ->
+  match o_slot (observe s) i, o_slot (observe s') i with
+  | Some x, Some y => c07_swap_check sc i (observe s) (observe s') outs x y
+  | _, _ => false
+  end = true.
+Proof.
+  intros HI E Hri Hq. pose proof (proj1 HI) as HK.
+  assert (Hr : aget (b_refr s) sc = Some i).
+  { unfold observe in Hri; cbn [o_refr] in Hri. rewrite aget_asort in Hri by apply (nd_refr HK). exact Hri. }
+  destruct (refr_get_slot s HK _ _ Hr) as [ref [Hs _]].
+  rewrite full_step_eq in E. cbn [step] in E.
+  destruct (UpdateSubConnState s sc Ready order) as [s1 o1] eqn:E1.
+  destruct (resolve_blocked s1) as [s2 ub2] eqn:Er. inv E.
+  destruct (swap_step _ _ _ _ _ _ _ HI Hr Hs E1) as (R1 & R2 & R3 & R4 & R5 & R6).
+  destruct (UpdateSubConnState_Inv _ _ _ _ _ _ HI E1) as [HI1 _].
+  pose proof (swap_ne s sc i ref HI Hr Hs) as Hne.
+  assert (Hs1 : get_slot s1 i = Some (swapped_slot sc (b_now s) ref)).
+  { unfold get_slot. rewrite R2, nth_error_upd_nth_eq. unfold get_slot in Hs. rewrite Hs. reflexivity. }
+  cbn [swap_quiet_ev ev_op ev_out ev_ub] in Hq.
+  assert (Hq' : forall j, ~ In (j, sc) ub) by (apply Hq; rewrite R1; discriminate).
+  pose proof (resolve_blocked_streams s1 s' ub i _ HI1 Er Hs1 Hq') as Hs'.
+  destruct (resolve_blocked_spec _ _ _ HI1 Er) as [HI' [Hm _]]. pose proof (proj1 HI') as HK'.
+  pose proof (f_equal b_refr Hm) as M1. pose proof (f_equal b_aff Hm) as M2.
+  pose proof (f_equal b_screfs Hm) as M3. pose proof (f_equal b_scstates Hm) as M4. cbn in M1, M2, M3, M4.
+  change (o_slot (observe s) i) with (get_slot s i). rewrite Hs.
+  change (o_slot (observe s') i) with (get_slot s' i). rewrite Hs'.
+  unfold c07_swap_check, o_conn_ready, o_conn_state, observe;
+    cbn [o_refr o_aff o_refs o_now o_st swapped_slot sl_conn sl_aff sl_streams sl_last sl_de sl_refreshing sl_rcnt].
+  rewrite R1. cbn [list_eqb]. rewrite !N.eqb_refl, !Z.eqb_refl. cbn [andb negb].
+  rewrite (aget_asort (b_refr s')) by apply (nd_refr HK').
+  rewrite !(aget_asort (b_screfs s')) by apply (nd_screfs HK').
+  rewrite (aget_asort (b_scstates s')) by apply (nd_scstates HK').
+  rewrite M1, M2, M3, M4, R3, R4, R5, R6, aget_adel_eq, aget_aset_eq, Nat.eqb_refl.
+  rewrite aget_aset_neq by exact Hne. rewrite aget_adel_eq, asort_rekey.
+  rewrite (list_eqb_refl nn_eqb) by apply nn_eqb_refl. reflexivity.
+Qed.
+
+(* ================================================================ the other events remove nothing *)
+Lemma no_removes_no_rm o : no_rm o -> no_removes o = true.
+Proof. unfold no_rm, no_removes. intros ->. reflexivity. Qed.
+
+Lemma step_other_no_rm raw s o order s1 outs rt :
+  Inv s -> rt <> RBadOp -> step raw s o order = (s1, outs, rt) ->
+  match o with OpConnState sc Ready => aget (b_refr s) sc = None | _ => True end ->
+  no_rm outs.
+Proof.
+  intros HI Hrt E Ho. pose proof (step_grow7 _ _ _ _ _ _ _ HI E) as Hg.
+  destruct o as [addrs a| |sc st|pi m hc rk dl cc|j oc rk|dt|j|f|g|k]; try (apply Hg).
+  - cbn [step] in E. destruct (UpdateSubConnState s sc st order) as [s1' o1] eqn:E1. inv E.
+    eapply UpdateSubConnState_no_rm; [exact HI| |exact E1]. intros ->. exact Ho.
+  - cbn [step] in E. destruct (Done_spec _ _ _ _ _ _ _ HI E Hrt) as (p & r & _ & _ & _ & _ & H2 & _).
+    cbv zeta in H2. rewrite H2. apply du_outs_no_rm.
 Qed.
